@@ -48,10 +48,13 @@ pub trait OutT: Clone {
     fn cell(&self, i: usize, j: usize) -> Cell;
     /// a default-filled target with the same number of columns and `rows` rows
     fn with_rows(&self, rows: usize) -> Self;
+    /// overwrite every cell with poison number `k` (0 / 1: two different fillings, so that for
+    /// two-valued outputs each answer is once the "wrong" pre-filling)
+    fn poison(&mut self, k: usize);
 }
 
 macro_rules! out1 {
-    ($t:ty, $conv:expr, $default:expr) => {
+    ($t:ty, $conv:expr, $default:expr, $poison:expr) => {
         impl OutT for Array1<$t> {
             fn rows(&self) -> usize {
                 self.len()
@@ -69,15 +72,19 @@ macro_rules! out1 {
             fn with_rows(&self, rows: usize) -> Self {
                 Array1::from_elem(rows, $default)
             }
+            fn poison(&mut self, k: usize) {
+                let f: fn(usize) -> $t = $poison;
+                self.fill(f(k));
+            }
         }
     };
 }
-out1!(usize, |v| Cell::U(*v as u64), 0usize);
-out1!(bool, |v| Cell::U(*v as u64), false);
-out1!(f64, |v| Cell::F(*v), 0.0f64);
-out1!(f32, |v| Cell::F(*v as f64), 0.0f32);
-out1!(Pr, |v| Cell::F(**v as f64), Pr::default());
-out1!(String, |v| Cell::S(v.clone()), String::new());
+out1!(usize, |v| Cell::U(*v as u64), 0usize, |k| if k == 0 { 987_654_321 } else { 0 });
+out1!(bool, |v| Cell::U(*v as u64), false, |k| k == 0);
+out1!(f64, |v| Cell::F(*v), 0.0f64, |k| if k == 0 { f64::NAN } else { -7.5e300 });
+out1!(f32, |v| Cell::F(*v as f64), 0.0f32, |k| if k == 0 { f32::NAN } else { -7.5e30 });
+out1!(Pr, |v| Cell::F(**v as f64), Pr::default(), |k| if k == 0 { Pr::new(1.0) } else { Pr::new(0.0) });
+out1!(String, |v| Cell::S(v.clone()), String::new(), |k| if k == 0 { "<poison>".to_string() } else { String::new() });
 
 impl OutT for Array2<f64> {
     fn rows(&self) -> usize {
@@ -94,6 +101,9 @@ impl OutT for Array2<f64> {
     }
     fn with_rows(&self, rows: usize) -> Self {
         Array2::zeros((rows, self.ncols()))
+    }
+    fn poison(&mut self, k: usize) {
+        self.fill(if k == 0 { f64::NAN } else { -7.5e300 });
     }
 }
 
@@ -112,6 +122,9 @@ impl OutT for Array2<f32> {
     }
     fn with_rows(&self, rows: usize) -> Self {
         Array2::zeros((rows, self.ncols()))
+    }
+    fn poison(&mut self, k: usize) {
+        self.fill(if k == 0 { f32::NAN } else { -7.5e30 });
     }
 }
 
@@ -211,6 +224,10 @@ pub struct Spec<'s> {
     pub wrong_len_msg: &'static str,
     /// the model's single-observation calling form (1-D record), where the type has one
     pub row_form: Option<Box<dyn Fn(ArrayView1<f64>) -> Cell + 's>>,
+    /// the pool is the extreme-row pool (recorded in the replay artefacts)
+    pub extreme: bool,
+    /// float outputs are probabilities: every output cell must lie in [0, 1] (NaN is outside)
+    pub unit_interval: bool,
 }
 
 impl<'s> Spec<'s> {
@@ -225,6 +242,8 @@ impl<'s> Spec<'s> {
             margin: None,
             wrong_len_msg: "The number of data points must match the number of output targets.",
             row_form: None,
+            extreme: false,
+            unit_interval: false,
         }
     }
     fn p(&self) -> usize {
@@ -299,7 +318,7 @@ impl<'r, 's> Run<'r, 's> {
     fn case_json(&self, sel: &[usize], layout: usize, form: &str, expected: Value, observed: Value) -> Value {
         let rows: Vec<&Vec<f64>> = sel.iter().map(|&q| &self.spec.pool[q]).collect();
         json!({
-            "entry": self.spec.kind, "instance": self.spec.instance, "max_len": self.spec.max_len,
+            "entry": self.spec.kind, "instance": self.spec.instance, "max_len": self.spec.max_len, "extreme": self.spec.extreme,
             "only": {"sel": sel, "layout": LAYOUTS[layout], "form": form},
             "batch_rows": rows, "expected": expected, "observed": observed,
         })
@@ -330,6 +349,9 @@ impl<'r, 's> Run<'r, 's> {
                 match (want, &got) {
                     (Cell::F(a), Cell::F(b)) => {
                         self.rep.float_cells += 1;
+                        if self.spec.unit_interval && !(0.0..=1.0).contains(b) {
+                            return Verdict::Bad { i, j, want: Cell::S("a probability in [0, 1]".into()), got, tol: 0.0 };
+                        }
                         if a.to_bits() == b.to_bits() || (a.is_nan() && b.is_nan()) {
                             self.rep.float_bit_identical += 1;
                             continue;
@@ -484,7 +506,14 @@ pub fn sweep<'a, T, MO, MV>(
     for (q, row) in spec.pool.iter().enumerate() {
         let x = make_owned(&[row], p, 0);
         match guarded(|| Predict::<&Array2<f64>, T>::predict(mo, &x)) {
-            Ok(o) if o.rows() == 1 => run.refs.push(Some((0..o.cols()).map(|j| o.cell(0, j)).collect())),
+            Ok(o) if o.rows() == 1 => {
+                let cells: Vec<Cell> = (0..o.cols()).map(|j| o.cell(0, j)).collect();
+                if spec.unit_interval && cells.iter().any(|c| matches!(c, Cell::F(v) if !(0.0..=1.0).contains(v))) {
+                    let cj = run.case_json(&[q], 0, "ref_array", json!("a probability in [0, 1]"), json!(cells.iter().map(|c| c.json()).collect::<Vec<_>>()));
+                    run.rep.push(Violation::new(format!("{}.predict.probability_outside_unit_interval", kind), format!("{}: pool row {} = {:?} alone gives {:?}, not a probability in [0, 1]", kind, q, row, cells), cj));
+                }
+                run.refs.push(Some(cells))
+            }
             Ok(o) => {
                 let cj = run.case_json(&[q], 0, "ref_array", json!({"rows": 1}), json!({"shape": o.shape_vec()}));
                 run.rep.push(Violation::new(format!("{}.predict.output_shape", kind), format!("{}: a single row gave an output of shape {:?}", kind, o.shape_vec()), cj));
@@ -519,7 +548,7 @@ pub fn sweep<'a, T, MO, MV>(
                 run.rep.bump("calls_form_single_observation", 1);
                 let got = guarded(|| rf(view));
                 let at = json!({"sel": [q], "layout": lname, "form": "single_observation"});
-                let mk = |expected: Value, observed: Value| json!({"entry": kind, "instance": spec.instance, "max_len": spec.max_len, "only": at, "batch_rows": [row], "expected": expected, "observed": observed});
+                let mk = |expected: Value, observed: Value| json!({"entry": kind, "instance": spec.instance, "max_len": spec.max_len, "extreme": spec.extreme, "only": at, "batch_rows": [row], "expected": expected, "observed": observed});
                 match got {
                     Err(msg) => {
                         let cj = mk(json!(want.iter().map(|c| c.json()).collect::<Vec<_>>()), json!({"panic": msg}));
@@ -639,10 +668,20 @@ pub fn sweep<'a, T, MO, MV>(
             });
             run.judge(b, layout, "inplace", r, base_ok, std_ok);
 
-            // ---- form 6: predict_inplace into a target that holds the result of another batch ----
+            // ---- form 6: predict_inplace into a target that holds the result of a DIFFERENT batch of the
+            // same length: position i holds the answer of a pool row whose single-row answer differs from
+            // the one wanted there (the "opposite answer") whenever the pool has such a row ----
             if n >= 1 {
-                let rev_rows: Vec<&Vec<f64>> = b.sel.iter().rev().map(|&q| &spec.pool[q]).collect();
-                let other = make_owned(&rev_rows, p, 0);
+                let other_sel: Vec<usize> = b
+                    .sel
+                    .iter()
+                    .map(|&q| (1..POOL).map(|d| (q + d) % POOL).find(|&o| run.refs[o].is_some() && run.refs[o] != run.refs[q]).unwrap_or((q + 1) % POOL))
+                    .collect();
+                if other_sel.iter().zip(b.sel.iter()).any(|(o, q)| run.refs[*o] != run.refs[*q]) {
+                    run.rep.bump("inplace_reused_targets_holding_different_answers", 1);
+                }
+                let other_rows: Vec<&Vec<f64>> = other_sel.iter().map(|&q| &spec.pool[q]).collect();
+                let other = make_owned(&other_rows, p, 0);
                 let r = guarded(|| {
                     let mut y = mo.default_target(&other);
                     mo.predict_inplace(&other, &mut y);
@@ -650,6 +689,16 @@ pub fn sweep<'a, T, MO, MV>(
                     y
                 });
                 run.judge(b, layout, "inplace_reused_target", r, base_ok, std_ok);
+            }
+            // ---- forms 7, 8: predict_inplace into a target pre-filled with poison (two fillings) ----
+            for (k, form) in ["inplace_poisoned_target_a", "inplace_poisoned_target_b"].iter().enumerate() {
+                let r = guarded(|| {
+                    let mut y = mo.default_target(proto);
+                    y.poison(k);
+                    mo.predict_inplace(proto, &mut y);
+                    y
+                });
+                run.judge(b, layout, form, r, base_ok, std_ok);
             }
 
             // ---- view forms ----
